@@ -303,13 +303,24 @@ KNOWN_DECORATORS = {'on_message', 'classmethod', 'staticmethod', 'property', 'ab
                     'functools.cached_property', 'cached_property', 'overload', 'typing.overload', 'override'}
 
 
-def _transparent_decorator(eng: Engine, name: str) -> bool:
-    """a decorator defined in the repository whose wrapper only forwards: `async def wrapper(self, *a, **k): return await f(self, *a, **k)` (or the
-    synchronous form), nothing before the call, nothing after it; or one that returns the function it was given"""
-    cands = [f for f in eng.repo.all_funcs() if f.cls is None and f.name == name.split('.')[-1] and f.outer is None]
-    if len(cands) != 1:
+def _forwards_only(w: FuncInfo, fp: str) -> bool:
+    """`[async] def w(<params>): [if <test without call or await>: raise ..]* ; return [await] fp(<the same params>)`"""
+    body = [s_ for s_ in w.node.body if not (isinstance(s_, ast.Expr) and isinstance(s_.value, ast.Constant))]
+    while len(body) > 1 and isinstance(body[0], ast.If) and not body[0].orelse and len(body[0].body) == 1 and isinstance(body[0].body[0], ast.Raise) and \
+            not any(isinstance(x, (ast.Await, ast.Call, ast.NamedExpr, ast.Yield)) for x in ast.walk(body[0].test)):
+        body = body[1:]         # a refusal in front of the call: raises before anything has happened, or changes nothing
+    if len(body) != 1 or not isinstance(body[0], ast.Return) or body[0].value is None:
         return False
-    d = cands[0]
+    c = body[0].value.value if isinstance(body[0].value, ast.Await) else body[0].value
+    a = w.node.args
+    fwd = [x.arg for x in a.posonlyargs + a.args]
+    want_args = fwd + ([f'*{a.vararg.arg}'] if a.vararg else [])
+    return bool(isinstance(c, ast.Call) and unparse(c.func) == fp and [unparse(x) for x in c.args] == want_args and
+                (not a.kwarg or any(k.arg is None and unparse(k.value) == a.kwarg.arg for k in c.keywords)) and
+                not [k for k in c.keywords if k.arg is not None] and not a.kwonlyargs and isinstance(body[0].value, ast.Await) == w.is_async)
+
+
+def _decorator_forwards(eng: Engine, d: FuncInfo) -> bool:
     fp = d.params[0] if d.params else None
     inner = [g for g in eng.repo.all_funcs() if g.outer is d]
     rets = [r for r in walk_local(d.node) if isinstance(r, ast.Return) and r.value is not None]
@@ -320,19 +331,27 @@ def _transparent_decorator(eng: Engine, name: str) -> bool:
         if v == fp:
             continue
         w = next((g for g in inner if g.name == v), None)
-        if w is None:
-            return False
-        body = [s_ for s_ in w.node.body if not (isinstance(s_, ast.Expr) and isinstance(s_.value, ast.Constant))]
-        if len(body) != 1 or not isinstance(body[0], ast.Return) or body[0].value is None:
-            return False
-        c = body[0].value.value if isinstance(body[0].value, ast.Await) else body[0].value
-        a = w.node.args
-        fwd = [x.arg for x in a.posonlyargs + a.args]
-        want_args = fwd + ([f'*{a.vararg.arg}'] if a.vararg else [])
-        if not (isinstance(c, ast.Call) and unparse(c.func) == fp and [unparse(x) for x in c.args] == want_args and
-                (not a.kwarg or any(k.arg is None and unparse(k.value) == a.kwarg.arg for k in c.keywords)) and isinstance(body[0].value, ast.Await) == w.is_async):
+        if w is None or not _forwards_only(w, fp):
             return False
     return True
+
+
+def _transparent_decorator(eng: Engine, name: str, factory: bool = False) -> bool:
+    """a decorator defined in the repository whose wrapper only forwards: `async def wrapper(self, *a, **k): return await f(self, *a, **k)` (or the
+    synchronous form), nothing after the call and in front of it at most refusals (`if <plain test>: raise ..`); or one that returns the
+    function it was given.  `@name(..)`: the same for the decorator that the factory `name` returns."""
+    cands = [f for f in eng.repo.all_funcs() if f.cls is None and f.name == name.split('.')[-1] and f.outer is None]
+    if len(cands) != 1:
+        return False
+    d = cands[0]
+    if not factory:
+        return _decorator_forwards(eng, d)
+    inner = [g for g in eng.repo.all_funcs() if g.outer is d]
+    rets = [r for r in walk_local(d.node) if isinstance(r, ast.Return) and r.value is not None]
+    if len(rets) != 1 or not isinstance(rets[0].value, ast.Name):
+        return False
+    g = next((x for x in inner if x.name == rets[0].value.id), None)
+    return g is not None and _decorator_forwards(eng, g)
 
 
 def decorators_known(eng: Engine, ck: Check, rule: str, funcs: list[FuncInfo], relies: str):
@@ -349,7 +368,7 @@ def decorators_known(eng: Engine, ck: Check, rule: str, funcs: list[FuncInfo], r
             if nm.endswith('.setter') or nm.endswith('.getter') or nm.endswith('.deleter'):
                 continue
             n += 1
-            ok = nm in KNOWN_DECORATORS or nm in ('functools.wraps', 'wraps') or _transparent_decorator(eng, nm) or \
+            ok = nm in KNOWN_DECORATORS or nm in ('functools.wraps', 'wraps') or _transparent_decorator(eng, nm, factory=isinstance(d, ast.Call)) or \
                 (nm.split('.')[-1] in ('lru_cache', 'cache') and f.cls is None and f.outer is None and not f.is_async and not (f.params and f.params[0] in ('self', 'cls')))
             ck.ob(rule, f, d, f'{f.qualname} carries only decorators whose effect the rules know ({relies})', ok,
                   f'`@{unparse(d)[:50]}`: callers of {f.name} run the wrapper this returns, not the body that the rules analysed (e.g. Connection.set_state assigns the state before '
